@@ -1,4 +1,4 @@
------------------------------ MODULE MC_ImplSnap -----------------------------
+----------------------------- MODULE MC_ImplSnap_thorough -----------------------------
 (* Mechanism vs contract: ordering chain x snapshot encoding.  Ordered s1 and *)
 (* plain sibling s2 on one topic, up to three messages (key K or none), no    *)
 (* clock advance.                                                             *)
@@ -8,6 +8,6 @@ Cfg0 == [ttl |-> 50, mttl |-> 6, ord |-> FALSE, filt |-> NoFilter, minB |-> 2, m
 mcTopics == <<"t1">>
 mcSubs == << [name |-> "s1", topic |-> "t1", cfg |-> [Cfg0 EXCEPT !.ord = TRUE]],
              [name |-> "s2", topic |-> "t1", cfg |-> Cfg0] >>
-mcMsgKinds == { [key |-> "K", attrs |-> <<>>] }
+mcMsgKinds == { [key |-> "", attrs |-> <<>>], [key |-> "K", attrs |-> <<>>] }
 mcOps == {"Publish", "Pull", "Ack", "CreateSnap", "SeekSnap"}
 =============================================================================
